@@ -350,6 +350,15 @@ def build_part(aa, cls, rng, i, shape=None):
         store_native = bool(rng.random() < 0.5)
         obj = aa.Array2D(values=(v.copy() if store_native else v[~m].copy()), mask=aa.Mask2D(mask=m.copy(), pixel_scales=arg),
                          store_native=store_native)
+        if i % 3 == 0 and m.any():
+            # the array to write is the RESULT OF ARITHMETIC on a masked array (data + constant, constant - data ...): for native
+            # storage its raw buffer then holds non-zero numbers at masked pixels, which must still read back as zeros
+            c_ = float(rng.choice([1.25, -3.5, 100.0]))
+            if rng.random() < 0.5:
+                obj, v = obj + c_, v + c_
+            else:
+                obj, v = c_ - obj, c_ - v
+            vfam = vfam + "+derived_by_arithmetic(%s)" % ("native_stored" if store_native else "slim_stored")
     return Part(cls, obj, np.where(m, 0.0, v), arg, sc, sfam, info={"shape": shfam, "values": vfam, "mask": mfam})
 
 
